@@ -424,6 +424,47 @@ func checkC20(c *Ctx) {
 		}
 		R.Check(ok, "C20-search-source", "find: matches are elements of the given list", c.P.Pos(f.Pos()), "matches = append(matches, entries[i]) in index order", "find does not return elements of the list it searches")
 	}
+	// ------------------------------------------------------------ value slices may be shared between entries
+	// NewEntryAttribute keeps the caller's slice and NewUsers gives one slice to every user: nothing may write
+	// into the backing array of an existing Values / ByteValues slice (element store, or truncate-and-refill).
+	nAlias := 0
+	sharedByCtor := false
+	if nea := c.fn(G, "NewEntryAttribute"); nea != nil {
+		for _, fs := range fieldStores([]*ssa.Function{nea}, G, "EntryAttribute", "Values") {
+			if an.Strip(fs.Store.Val) == ssa.Value(nea.Params[1]) {
+				sharedByCtor = true
+			}
+		}
+	}
+	if sharedByCtor {
+		for _, f := range c.shippedFuncs(G, TD) {
+			an.Instrs(f, func(in ssa.Instruction) {
+				st, ok := in.(*ssa.Store)
+				if !ok {
+					return
+				}
+				for _, fld := range []string{"Values", "ByteValues"} {
+					// (1) x.Values = x.Values[:k]  (keeps the old backing array for later appends)
+					if _, isF := fieldAddr(st.Addr, G, "EntryAttribute", fld); isF {
+						if sl, isS := st.Val.(*ssa.Slice); isS && sl.High != nil {
+							if _, isOld := fieldLoad(sl.X, G, "EntryAttribute", fld); isOld {
+								nAlias++
+								R.Fail("C20-noalias", fname(f)+": EntryAttribute."+fld+" truncated in place", c.pos(st), "an attribute's "+fld+" slice is truncated and then refilled: its backing array can be shared with other entries (NewEntryAttribute keeps the caller's slice, NewUsers passes one slice to all users), so the refill overwrites their values")
+							}
+						}
+					}
+					// (2) x.Values[i] = v
+					if ia, isI := st.Addr.(*ssa.IndexAddr); isI {
+						if _, isOld := fieldLoad(ia.X, G, "EntryAttribute", fld); isOld {
+							nAlias++
+							R.Fail("C20-noalias", fname(f)+": element of EntryAttribute."+fld+" overwritten", c.pos(st), "an element of an attribute's "+fld+" slice is overwritten in place; the backing array can be shared with other entries")
+						}
+					}
+				}
+			})
+		}
+		R.Trivial("C20-noalias", "no in-place write into a possibly shared Values / ByteValues backing array", "-", "NewEntryAttribute keeps the caller's slice; all writers install fresh slices or append to the full slice")
+	}
 	R.Floor("C20-arms", 3)
 	R.Floor("C20-pairing", 4)
 	R.Floor("C20-search-source", 4)
